@@ -5,10 +5,10 @@
      C17_error_iff_malformed : translate mode p = TErr _ <-> malformed p
    The faithful model violates both (lone trailing backslash: C17_trailing_backslash_refuted; further
    classes in known_findings.jsonl KF-C17-2..9), so the positive theorem is proved on a fragment and
-   named _partial; brackets, extended operators, case folding and Filenames are covered by the code
-   legs, the spec-vs-bash leg and the exhaustive search only. *)
+   named _partial; named classes inside brackets, extended operators, case folding and Filenames are
+   covered by the code legs, the spec-vs-bash leg and the exhaustive search only. *)
 From Verif Require Import Base.Str Pattern.Regex Pattern.Translate Pattern.GlobSpec Pattern.Fragment
-  Proofs.RegexProofs Proofs.TranslateProofs.
+  Proofs.RegexProofs Proofs.TranslateProofs Proofs.CompilesProofs Proofs.PiecesProofs.
 
 (* the executable matcher used by the regexp-meaning leg decides the denotation of the regexp AST,
    for every expression, every string and every folding *)
@@ -56,3 +56,56 @@ Theorem C17_trailing_backslash_refuted :
   exists p s, translate mode_es p = TErr EBackslash /\ glob_spec no_wide f_plain p s = true.
 Proof. exact trailing_backslash_refuted. Qed.
 Print Assumptions C17_trailing_backslash_refuted.
+
+(* PARTIAL, second fragment (subsumes the flat one): patterns that are a list of pieces
+     literal | \escaped | * | ? | [ (! or ^)? (])? elements ]      elements: plain rune | \rune | a-b (a <= b)
+   (Fragment.piece_ok; plain = any rune except NUL \ - ] [ ; any number of pieces and elements), in every mode with
+   EntireString and without Filenames / ExtendedOperators / NoGlobCase: the translation succeeds with both anchors
+   and its AST accepts exactly what bash's rule (GlobSpec, incl. the transliterated BRACKMATCH) accepts.
+   Missing: [:class:] elements, a literal '-' first/last, the unclosed-bracket cases, extended operators,
+   folding, Filenames. *)
+Theorem C17_sound_complete_brackets_partial : forall wc m ps txt bol eol body,
+  m_entire m = true -> m_filenames m = false -> m_ext m = false -> m_nocase m = false ->
+  forallb piece_ok ps = true -> translate m (pat_text ps) = TOk txt bol eol body ->
+  exists r, body = OOk r /\ bol = true /\ eol = true /\
+            forall s, matches orbit_id r s <-> glob_spec wc f_plain (pat_text ps) s = true.
+Proof. exact sound_complete_pieces. Qed.
+Print Assumptions C17_sound_complete_brackets_partial.
+
+(* PARTIAL (error clause, one direction): no error on that fragment, and the AST is the expected one *)
+Theorem C17_brackets_never_error_partial : forall m ps,
+  m_entire m = true -> m_filenames m = false -> m_ext m = false -> forallb piece_ok ps = true ->
+  exists txt, translate m (pat_text ps) = TOk txt true true (OOk (pat_re REps ps)).
+Proof. exact pieces_never_error. Qed.
+Print Assumptions C17_brackets_never_error_partial.
+
+(* non-vacuity:  a[!]b-dx\-]*[]^]?  is in the fragment; it accepts "ae-]q" and rejects "ac-]q" *)
+Example C17_brackets_nonvacuous :
+  let ps := [PLit 97; PSet (Some 33) true [ERng 98 100; EChar 120; EEsc 45]; PStar; PSet None true [EChar 94]; PAny] in
+  forallb piece_ok ps = true /\
+  pat_text ps = [97; 91;33;93;98;45;100;120;92;45;93; 42; 91;93;94;93; 63] /\
+  glob_spec no_wide f_plain (pat_text ps) [97; 101; 45; 93; 113] = true /\
+  glob_spec no_wide f_plain (pat_text ps) [97; 99; 45; 93; 113] = false.
+Proof. cbv zeta. split; [reflexivity|]. split; [reflexivity|]. split; vm_compute; reflexivity. Qed.
+
+(* C17_compiles (text side): for EVERY mode and EVERY pattern, whenever the translation yields an AST the regexp text
+   it wrote is exactly that AST printed by Regex.print_re — bare on the short-cut path, otherwise between the
+   "(?s[i][U])[^]" header and the optional "$".  (That Go's regexp package parses this text to this AST is the
+   regexp-meaning leg's job; a text Go rejects is modelled as OBad and is never an AST.) *)
+Theorem C17_text_is_printed_ast : forall m p txt bol eol r,
+  translate m p = TOk txt bol eol (OOk r) ->
+  txt = print_re r \/ txt = header m ++ print_re r ++ (if m_entire m then [36] else []).
+Proof. exact text_is_printed_ast. Qed.
+Print Assumptions C17_text_is_printed_ast.
+
+(* PARTIAL (C17_error_iff_malformed on the one-range bracket shape): for plain runes a b (a not ! or ^), in every mode
+   with EntireString and without Filenames / ExtendedOperators, the pattern [a-b] is the error "invalid range: a-b"
+   exactly when the range is reversed.  Together with C17_brackets_never_error_partial (no error on the whole
+   second fragment) this is what is proved of the error clause; a general "Err <-> malformed" (several ranges,
+   invalid class names, the known-finding classes excluded) is not proved. *)
+Theorem C17_error_iff_reversed_range_partial : forall m a b,
+  m_entire m = true -> m_filenames m = false -> m_ext m = false ->
+  plainc a = true -> plainc b = true -> (a =? cBANG)%N || (a =? cCARET)%N = false ->
+  (translate m [cLBRK; a; cDASH; b; cRBRK] = TErr (ERange a b) <-> (b < a)%N).
+Proof. exact range_error_iff. Qed.
+Print Assumptions C17_error_iff_reversed_range_partial.
